@@ -9,19 +9,24 @@ package nebula
 // <<flow, incoming>>) as one exact rule per allowed packet (proto, port, cidr = remote/32, local_cidr = local/32).
 
 import (
+	"context"
 	"encoding/json"
 	"fmt"
+	"io"
+	"log/slog"
 	"net/netip"
 	"slices"
 	"sort"
 	"strings"
 	"testing"
+	"testing/synctest"
 	"time"
 
 	"github.com/gaissmai/bart"
 	"github.com/slackhq/nebula/cert"
 	"github.com/slackhq/nebula/config"
 	"github.com/slackhq/nebula/firewall"
+	"github.com/slackhq/nebula/logging"
 	"github.com/slackhq/nebula/test"
 )
 
@@ -40,8 +45,9 @@ func (t ctTuple) packet() firewall.Packet {
 }
 
 // options that change what unchanged rule text means: firewall.default_local_cidr_any and whether the node's
-// certificate has an unsafe network (198.51.100.0/24)
-type ctOpts struct{ any, unsafe bool }
+// certificate has an unsafe network (198.51.100.0/24). keyAlways: firewall.default_local_cidr_any is written whatever the
+// certificate says, so that the firewall section stays byte-identical when only the certificate changes.
+type ctOpts struct{ any, unsafe, keyAlways bool }
 
 var ctUnsafeNet = netip.MustParsePrefix("198.51.100.0/24")
 var ctUnsafeLocal = netip.MustParseAddr("198.51.100.5")
@@ -58,6 +64,9 @@ type ctAtom struct {
 func (a ctAtom) matches(t ctTuple, incoming bool, o ctOpts) bool {
 	if a.Incoming != incoming {
 		return false
+	}
+	if ctUnsafeNet.Contains(t.Local) && !o.unsafe {
+		return false // without the unsafe network in the certificate its addresses are not the node's: no rule applies
 	}
 	switch a.Proto {
 	case "tcp":
@@ -192,6 +201,38 @@ type ctWorld struct {
 	nonce int
 	yaml  string
 	opts  ctOpts
+	// the reader routines' routine-local conntrack caches (empty: Drop gets a nil cache), as listenIn / listenOut own them:
+	// one real firewall.ConntrackCacheTicker per routine, Get() per packet
+	tickers []*firewall.ConntrackCacheTicker
+	stop    context.CancelFunc
+	l       *slog.Logger
+	// whether the installed certificate carries the unsafe network
+	certUnsafe bool
+}
+
+// ctCacheCfg: routine caches of a world: how many routines, the period in units, the log level of the node
+// ("" = test.NewLogger(), else info / debug / trace: a real handler at that level writing to io.Discard)
+type ctCacheCfg struct {
+	routines int
+	period   int
+	level    string
+}
+
+func ctLogger(level string) *slog.Logger {
+	var lv slog.Level
+	switch level {
+	case "":
+		return test.NewLogger()
+	case "info":
+		lv = slog.LevelInfo
+	case "debug":
+		lv = slog.LevelDebug
+	case "trace":
+		lv = logging.LevelTrace
+	default:
+		panic("verif: unknown log level " + level)
+	}
+	return slog.New(slog.NewTextHandler(io.Discard, &slog.HandlerOptions{Level: lv}))
 }
 
 var ctLocals = []netip.Addr{netip.MustParseAddr("10.0.0.1"), netip.MustParseAddr("10.0.1.1")}
@@ -201,7 +242,7 @@ func ctYAML(unit time.Duration, to [3]int, atoms []ctAtom, nonce int, o ctOpts) 
 	var b strings.Builder
 	fmt.Fprintf(&b, "firewall:\n  verif_generation: %d\n  conntrack:\n    tcp_timeout: %s\n    udp_timeout: %s\n    default_timeout: %s\n",
 		nonce, time.Duration(to[0])*unit, time.Duration(to[1])*unit, time.Duration(to[2])*unit)
-	if o.unsafe {
+	if o.unsafe || o.keyAlways {
 		fmt.Fprintf(&b, "  default_local_cidr_any: %v\n", o.any)
 	}
 	for _, inc := range []bool{false, true} {
@@ -235,15 +276,23 @@ func ctYAML(unit time.Duration, to [3]int, atoms []ctAtom, nonce int, o ctOpts) 
 }
 
 func ctNewWorld(unit time.Duration, to [3]int, atoms []ctAtom, o ctOpts) *ctWorld {
-	l := test.NewLogger()
-	w := &ctWorld{unit: unit, to: to, opts: o, hosts: map[netip.Addr]*HostInfo{}, pool: cert.NewCAPool()}
-	owner := &dummyCert{version: cert.Version2, name: "owner",
-		networks: []netip.Prefix{netip.PrefixFrom(ctLocals[0], 24), netip.PrefixFrom(ctLocals[1], 24)}}
-	if o.unsafe {
-		owner.unsafeNetworks = []netip.Prefix{ctUnsafeNet}
+	return ctNewWorldC(unit, to, atoms, o, ctCacheCfg{})
+}
+
+// ctNewWorldC: a world whose reader routines own routine-local conntrack caches (inside a synctest bubble; close() it)
+func ctNewWorldC(unit time.Duration, to [3]int, atoms []ctAtom, o ctOpts, cc ctCacheCfg) *ctWorld {
+	l := ctLogger(cc.level)
+	w := &ctWorld{unit: unit, to: to, opts: o, hosts: map[netip.Addr]*HostInfo{}, pool: cert.NewCAPool(), l: l}
+	if cc.routines > 0 {
+		var ctx context.Context
+		ctx, w.stop = context.WithCancel(context.Background())
+		for i := 0; i < cc.routines; i++ {
+			// as Interface.listenOut / listenIn do with f.conntrackCacheTimeout and the node's logger
+			w.tickers = append(w.tickers, firewall.NewConntrackCacheTicker(ctx, l, time.Duration(cc.period)*unit))
+		}
 	}
 	w.pki = &PKI{}
-	w.pki.cs.Store(&CertState{v2Cert: owner, initiatingVersion: cert.Version2})
+	owner := w.setCert(o.unsafe)
 	mine := new(bart.Lite)
 	for _, n := range owner.networks {
 		mine.Insert(n.Masked())
@@ -268,11 +317,27 @@ func ctNewWorld(unit time.Duration, to [3]int, atoms []ctAtom, o ctOpts) *ctWorl
 	return w
 }
 
+// setCert gives the node a (renewed) certificate with or without the unsafe network, as a pki reload does: a new
+// CertState is stored; the firewall notices at its next reload (interface.go reloadFirewall: certUnsafeChanged)
+func (w *ctWorld) setCert(unsafe bool) *dummyCert {
+	owner := &dummyCert{version: cert.Version2, name: "owner",
+		networks: []netip.Prefix{netip.PrefixFrom(ctLocals[0], 24), netip.PrefixFrom(ctLocals[1], 24)}}
+	if unsafe {
+		owner.unsafeNetworks = []netip.Prefix{ctUnsafeNet}
+	}
+	w.pki.cs.Store(&CertState{v2Cert: owner, initiatingVersion: cert.Version2})
+	w.certUnsafe = unsafe
+	return owner
+}
+
 // reload installs the rules through Interface.reloadFirewall.  bump=true changes an ignored key of the firewall
 // section so that the section differs even when the rules do not; bump=false with unchanged rules is a no-op reload.
 func (w *ctWorld) reload(atoms []ctAtom, bump bool) {
 	if bump {
 		w.nonce++
+	}
+	if w.opts.unsafe != w.certUnsafe {
+		w.setCert(w.opts.unsafe) // the certificate was renewed before this reload
 	}
 	w.yaml = ctYAML(w.unit, w.to, atoms, w.nonce, w.opts)
 	if err := w.cfg.ReloadConfigString(w.yaml); err != nil {
@@ -301,7 +366,31 @@ func (w *ctWorld) drop(t ctTuple, incoming bool) (pass bool, err error) {
 	return err == nil, err
 }
 
-func (w *ctWorld) sleep(units int) { time.Sleep(time.Duration(units) * w.unit) }
+// dropR: the packet is handled by reader routine q (1-based), which hands Drop its own cache as outside.go / inside.go do;
+// cached = the tuple was in that routine's cache when the packet arrived
+func (w *ctWorld) dropR(q int, t ctTuple, incoming bool) (pass, cached bool) {
+	h := w.hosts[t.Remote]
+	c := w.tickers[q-1].Get()
+	_, cached = c[t.packet()]
+	err := w.ifc.firewall.Drop(t.packet(), incoming, h, w.pool, w.tickers[q-1].Get())
+	return err == nil, cached
+}
+
+func (w *ctWorld) sleep(units int) {
+	time.Sleep(time.Duration(units) * w.unit)
+	if len(w.tickers) > 0 {
+		synctest.Wait() // the tickers of the routine caches have seen every tick up to now
+	}
+}
+
+// close stops the ticker goroutines of the routine caches
+func (w *ctWorld) close() {
+	if w.stop != nil {
+		w.stop()
+		synctest.Wait()
+		w.stop = nil
+	}
+}
 
 // ---------------------------------------------------------------------------------------------------------------
 // replay of tours of the state graph of Conntrack.tla
@@ -313,6 +402,10 @@ type ctGraphPlan struct {
 	VerMod int      `json:"verMod"`
 	Maps   []string `json:"maps"` // tuple maps to use (empty: all)
 	Sem    bool     `json:"sem"`  // reloads name a configuration [any, txt]; flow 2 goes to an unsafe-network address
+	// routine-local conntrack caches: number of reader routines (0 = off), period in units, log levels of the node to run under
+	Routines    int      `json:"routines"`
+	CachePeriod int      `json:"cachePeriod"`
+	Logs        []string `json:"logs"`
 }
 
 // something a reload can install: rule text, options, and the packets the model says it allows
@@ -325,16 +418,19 @@ type ctInstall struct {
 type ctModelCfg struct {
 	Any bool   `json:"any"`
 	Txt string `json:"txt"`
+	Un  *bool  `json:"un"` // the node's certificate carries the unsafe network (absent in older graphs: it does)
 }
+
+func (c ctModelCfg) un() bool { return c.Un == nil || *c.Un }
 
 func ctDecodeCfg(m json.RawMessage) (c ctModelCfg, key string) {
 	if err := json.Unmarshal(m, &c); err != nil {
 		return c, "" // graphs whose reloads name the rule set carry a dummy here
 	}
-	return c, fmt.Sprintf("cfg:%s:%v", c.Txt, c.Any)
+	return c, fmt.Sprintf("cfg:%s:%v:%v", c.Txt, c.Any, c.un())
 }
 
-// rule texts of the configurations of Conntrack.tla!SemCfgs for the tuple pair of ctSemMap
+// rule texts of the configurations of Conntrack.tla!SemCfgsU for the tuple pair of ctSemMap
 func ctSemAtoms(txt string, t ctTuple) []ctAtom {
 	in := ctAtom{Incoming: true, Proto: "udp", Port: int(t.LPort), Remote: netip.PrefixFrom(t.Remote, 32)}
 	out := ctAtom{Incoming: false, Proto: "udp", Port: int(t.RPort), Remote: netip.PrefixFrom(t.Remote, 32)}
@@ -430,16 +526,33 @@ func ctDomain(m json.RawMessage) []int {
 type ctRun struct {
 	w      *ctWorld
 	tuples []ctTuple
+	// what the latest reload changed (reloadModel)
+	lastReload string
 }
 
 // reloadModel performs a reload with a changed firewall section; wraps = the model's small version counter wraps at
 // this reload, so the real 16-bit counter is put at 65535 first
-func (r *ctRun) reloadModel(in ctInstall, wraps bool) {
+func (r *ctRun) reloadModel(in ctInstall, wraps bool) (kind string) {
 	if wraps {
 		r.w.shiftVersions()
 	}
+	// what changes: the certificate's unsafe networks, firewall.default_local_cidr_any, the rule text
+	certChange := in.opts.unsafe != r.w.opts.unsafe
+	sameSection := ctYAML(r.w.unit, r.w.to, in.atoms, r.w.nonce, in.opts) == r.w.yaml
+	switch {
+	case certChange && sameSection:
+		kind = "cert-unsafe-networks-only" // the firewall section stays byte-identical
+	case certChange:
+		kind = "cert-unsafe-networks+section"
+	case in.opts.any != r.w.opts.any:
+		kind = "default_local_cidr_any"
+	default:
+		kind = "rules"
+	}
 	r.w.opts = in.opts
-	r.w.reload(in.atoms, true)
+	r.w.reload(in.atoms, !(certChange && sameSection))
+	r.lastReload = kind
+	return kind
 }
 
 type ctPlan struct {
@@ -447,6 +560,8 @@ type ctPlan struct {
 	Groups []struct {
 		File string `json:"file"`
 		TO   [3]int `json:"to"`
+		// routine caches in the histories of this group: period in units (0 = every history runs with the cache off)
+		CachePeriod int `json:"cachePeriod"`
 	} `json:"groups"`
 	Traces  int  `json:"traces"`
 	Events  int  `json:"events"`
@@ -499,6 +614,19 @@ func ctReplayGraph(t *testing.T, res *vResult, g ctGraphPlan, twin bool) {
 		}
 	}
 	units := []time.Duration{time.Second, 40 * time.Millisecond}
+	// variants of the world a tour runs in: the time unit and, with routine caches, the node's log level
+	type variant struct {
+		u     time.Duration
+		level string
+		first bool
+	}
+	variants := []variant{{units[0], "", true}, {units[1], "", false}}
+	if g.Routines > 0 {
+		variants = nil
+		for i, lv := range g.Logs {
+			variants = append(variants, variant{units[i%2], lv, i == 0})
+		}
+	}
 	twinDone := map[string]bool{}
 	maps := ctMaps(g.Protos)
 	if g.Sem {
@@ -518,7 +646,7 @@ func ctReplayGraph(t *testing.T, res *vResult, g ctGraphPlan, twin bool) {
 			usable = usable && ok
 		}
 		for k, c := range cfgs {
-			inst[k] = ctInstall{atoms: ctSemAtoms(c.Txt, m.tuples[0]), opts: ctOpts{any: c.Any, unsafe: true}, allowed: cfgRules[k]}
+			inst[k] = ctInstall{atoms: ctSemAtoms(c.Txt, m.tuples[0]), opts: ctOpts{any: c.Any, unsafe: c.un(), keyAlways: true}, allowed: cfgRules[k]}
 		}
 		for _, in := range inst {
 			usable = usable && ctRulesAgree(units[0], g.TO, in.atoms, in.opts, m.tuples, in.allowed.has)
@@ -528,10 +656,12 @@ func ctReplayGraph(t *testing.T, res *vResult, g ctGraphPlan, twin bool) {
 			continue
 		}
 		res.Hit("R:map:" + m.name)
-		for ui, u := range units {
-			if ui > 0 && m.name != "distinct" {
+		for vi, va := range variants {
+			ui, u := vi, va.u
+			if !va.first && m.name != "distinct" && g.Routines == 0 {
 				continue
 			}
+			cached := false // the latest packet found its tuple in its routine's cache
 			exec := func(r *ctRun, e vEdge) (pkt bool, pass bool) {
 				switch e.Act {
 				case "Sleep":
@@ -539,8 +669,17 @@ func ctReplayGraph(t *testing.T, res *vResult, g ctGraphPlan, twin bool) {
 				case "Pkt":
 					pass, _ = r.w.drop(r.tuples[vInt(e.Args[0])-1], vBool(e.Args[1]))
 					return true, pass
+				case "PktR", "PktCached": // (routine, flow, incoming): both are Drop with that routine's cache
+					pass, cached = r.w.dropR(vInt(e.Args[0]), r.tuples[vInt(e.Args[1])-1], vBool(e.Args[2]))
+					if cached {
+						res.Hit("R:served-from-routine-cache")
+					}
+					return true, pass
 				case "Reload", "ReloadCfg":
-					r.reloadModel(inst[edgeKey(e)], (ms[e.Src].ver+1)%g.VerMod == 0)
+					kind := r.reloadModel(inst[edgeKey(e)], (ms[e.Src].ver+1)%g.VerMod == 0)
+					if g.Sem {
+						res.Hit("R:reload:" + kind)
+					}
 				default:
 					t.Fatalf("unknown action %s", e.Act)
 				}
@@ -548,7 +687,7 @@ func ctReplayGraph(t *testing.T, res *vResult, g ctGraphPlan, twin bool) {
 			}
 			fresh := func() *ctRun {
 				in := inst[ms[gr.Init[0]].cfgKey]
-				return &ctRun{w: ctNewWorld(u, g.TO, in.atoms, in.opts), tuples: m.tuples}
+				return &ctRun{w: ctNewWorldC(u, g.TO, in.atoms, in.opts, ctCacheCfg{g.Routines, g.CachePeriod, va.level}), tuples: m.tuples}
 			}
 			prefix := func(tour []int, n int) *ctRun {
 				r := fresh()
@@ -560,13 +699,20 @@ func ctReplayGraph(t *testing.T, res *vResult, g ctGraphPlan, twin bool) {
 			for ti, tour := range gr.Tours {
 				r := fresh()
 				passedBefore := map[int]bool{} // only to word a finding
+				// only to name a finding: since it last passed, a packet of the flow was refused while the certificate had no
+				// unsafe network and the flow's node-side address lies in that network (Drop's local address check)
+				refusedUnroutable := map[int]bool{}
 			steps:
 				for si, ei := range tour {
 					e := gr.Edges[ei]
 					res.Hit(e.Act)
-					res.Case(fmt.Sprintf("%s/%s/%s/%d", g.File, m.name, u, ei))
+					res.Case(fmt.Sprintf("%s/%s/%s%s/%d", g.File, m.name, u, va.level, ei))
 					det := map[string]any{"graph": g.File, "map": m.name, "unit": u.String(), "tour": ti, "step": si, "tour_edges": tour[:si+1],
 						"timeouts_units_tcp_udp_other": g.TO, "tuples": fmt.Sprint(m.tuples), "config": r.w.yaml}
+					if g.Routines > 0 {
+						det["routines"], det["routine_cache_period_units"], det["log_level"] = g.Routines, g.CachePeriod, va.level
+						res.Hit("R:log:" + va.level)
+					}
 					if twin && (e.Act == "Reload" || e.Act == "ReloadCfg") && ms[e.Dst].rules.key() == ms[e.Src].rules.key() {
 						if e.Act == "ReloadCfg" {
 							res.Hit("R:twin-option-flip")
@@ -602,36 +748,63 @@ func ctReplayGraph(t *testing.T, res *vResult, g ctGraphPlan, twin bool) {
 					if !pkt {
 						continue
 					}
-					f, inc := vInt(e.Args[0]), vBool(e.Args[1])
+					ai := 0
+					if e.Act != "Pkt" {
+						ai = 1 // (routine, flow, incoming)
+					}
+					f, inc := vInt(e.Args[ai]), vBool(e.Args[ai+1])
 					want := ms[e.Dst]
 					if pass && !want.may {
 						var key, what string
+						// with routine caches the finding names where the verdict came from and the log level of the node
+						via := ""
+						if g.Routines > 0 {
+							via = ":from-conntrack"
+							if cached {
+								via = ":from-routine-cache"
+							}
+							via += ":log=" + va.level
+						}
+						if g.Sem && r.lastReload != "" {
+							via += ":after-reload-of=" + r.lastReload // what the latest reload changed
+						}
 						switch want.why {
 						case "idle":
-							key = fmt.Sprintf("replay:expired-flow-honoured:%s", g.Protos[f-1])
+							key = fmt.Sprintf("replay:expired-flow-honoured:%s%s", g.Protos[f-1], via)
 							what = fmt.Sprintf("packet %s incoming=%v passes although no rule allows it and its flow has been idle longer than the %s timeout (%d units)",
 								m.tuples[f-1], inc, g.Protos[f-1], g.TO[ctProtoIdx(g.Protos[f-1])])
+							if cached {
+								what += fmt.Sprintf("; the verdict came from the routine-local conntrack cache of routine %d (period %d units, log level %s)",
+									vInt(e.Args[0]), g.CachePeriod, va.level)
+							}
 						case "rules":
-							key = "replay:flow-not-revalidated"
+							key = "replay:flow-not-revalidated" + via
 							what = fmt.Sprintf("packet %s incoming=%v passes although the current rules allow neither it nor the direction in which its flow was opened",
 								m.tuples[f-1], inc)
 						default:
-							key = fmt.Sprintf("replay:untracked-tuple-honoured:%s", m.name)
+							key = fmt.Sprintf("replay:untracked-tuple-honoured:%s%s", m.name, via)
 							what = fmt.Sprintf("packet %s incoming=%v passes although no rule allows it and no packet of this tuple ever passed", m.tuples[f-1], inc)
 							if passedBefore[f] {
-								key = fmt.Sprintf("replay:ended-flow-honoured:%s", g.Protos[f-1])
+								key = fmt.Sprintf("replay:ended-flow-honoured:%s%s", g.Protos[f-1], via)
 								what = fmt.Sprintf("packet %s incoming=%v passes although no rule allows it and its flow had ended (a packet of it was refused since it last passed)", m.tuples[f-1], inc)
+							}
+							if passedBefore[f] && refusedUnroutable[f] {
+								key = "replay:ended-flow-honoured:refused-while-unsafe-network-absent"
+								what += "; it was refused while the node's certificate did not carry the unsafe network of the flow's node-side address " +
+									"(the local address check of Drop refuses without forgetting the tracked flow), and is honoured again now that the certificate carries it again"
 							}
 						}
 						res.Mismatch(key, what, det)
 						break steps
 					}
 					passedBefore[f] = passedBefore[f] || pass
+					refusedUnroutable[f] = !pass && (refusedUnroutable[f] || (!r.w.certUnsafe && ctUnsafeNet.Contains(m.tuples[f-1].Local)))
 					if pass != want.res {
 						res.Hit("R:left-tour")
 						break steps
 					}
 				}
+				r.w.close()
 				res.Hit("R:tour")
 			}
 		}
@@ -682,7 +855,7 @@ func ctTraces(t *testing.T, res *vResult, plan ctPlan, prop string) {
 			// local_cidr, and reloads also flip firewall.default_local_cidr_any with the rule text untouched
 			opts := ctOpts{}
 			if plan.Reloads {
-				opts = ctOpts{unsafe: true, any: rnd.Intn(2) == 0}
+				opts = ctOpts{unsafe: true, any: rnd.Intn(2) == 0, keyAlways: true}
 			}
 			// flows: pairwise different tuples from small pools, protocol by flow number
 			var tuples []ctTuple
@@ -759,8 +932,22 @@ func ctTraces(t *testing.T, res *vResult, plan ctPlan, prop string) {
 				}
 				atoms = genAtoms()
 			}
-			w := ctNewWorld(unit, g.TO, atoms, opts)
-			tr.Event(map[string]any{"ev": "reset", "rules": rulesOf(atoms)})
+			// routine caches (C18): two of three histories run with 1-3 reader routines that each own a real
+			// ConntrackCacheTicker, under a node log level drawn per history; every packet is handled by one of the routines
+			cc := ctCacheCfg{}
+			if g.CachePeriod > 0 && rnd.Intn(3) > 0 {
+				cc = ctCacheCfg{routines: 1 + rnd.Intn(3), period: g.CachePeriod, level: []string{"info", "debug", "trace", ""}[rnd.Intn(4)]}
+				res.Hit("T:routine-cache")
+				res.Hit("T:log:" + cc.level)
+			}
+			w := ctNewWorldC(unit, g.TO, atoms, opts, cc)
+			unsafeFlows := []int{} // (only to name a finding) the flows whose node-side address lies in the unsafe network
+			for i, tp := range tuples {
+				if ctUnsafeNet.Contains(tp.Local) {
+					unsafeFlows = append(unsafeFlows, i+1)
+				}
+			}
+			tr.Event(map[string]any{"ev": "reset", "rules": rulesOf(atoms), "unsafe_flows": unsafeFlows, "cert_unsafe": opts.unsafe})
 			churn := rnd.Intn(3) // 0: only the focus flow talks, 1: some, 2: much unrelated traffic
 			focus := 1 + rnd.Intn(len(tuples))
 			for s := 0; s < plan.Events; s++ {
@@ -794,7 +981,16 @@ func ctTraces(t *testing.T, res *vResult, plan ctPlan, prop string) {
 					tr.Event(map[string]any{"ev": "Sleep", "d": d})
 				}
 				if plan.Reloads && rnd.Intn(6) == 0 {
-					switch rnd.Intn(6) {
+					switch rnd.Intn(8) {
+					case 6, 7: // the certificate is renewed without / again with the unsafe network: the whole firewall section is byte-identical
+						opts.unsafe = !opts.unsafe
+						if ctRulesAgree(unit, g.TO, atoms, opts, tuples, allowedBy(atoms)) {
+							w.opts = opts
+							w.reload(atoms, false)
+							res.Hit("T:Reload-cert-unsafe")
+						} else {
+							opts.unsafe = !opts.unsafe
+						}
 					case 4, 5: // only default_local_cidr_any changes, the rule list is byte-identical
 						opts.any = !opts.any
 						if ctRulesAgree(unit, g.TO, atoms, opts, tuples, allowedBy(atoms)) {
@@ -822,11 +1018,23 @@ func ctTraces(t *testing.T, res *vResult, plan ctPlan, prop string) {
 							res.Hit("T:Reload")
 						}
 					}
-					tr.Event(map[string]any{"ev": "Reload", "rules": rulesOf(atoms)})
+					tr.Event(map[string]any{"ev": "Reload", "rules": rulesOf(atoms), "cert_unsafe": opts.unsafe})
 				}
 				inc := rnd.Intn(2) == 0
-				pass, _ := w.drop(tuples[f-1], inc)
-				tr.Event(map[string]any{"ev": "Pkt", "f": f, "inc": inc, "pass": pass})
+				var pass bool
+				ev := map[string]any{"ev": "Pkt", "f": f, "inc": inc}
+				if cc.routines > 0 {
+					var cached bool
+					pass, cached = w.dropR(1+rnd.Intn(cc.routines), tuples[f-1], inc)
+					if cached {
+						res.Hit("T:served-from-routine-cache")
+						ev["via"] = "routine-cache:log=" + cc.level // (only to name a finding)
+					}
+				} else {
+					pass, _ = w.drop(tuples[f-1], inc)
+				}
+				ev["pass"] = pass
+				tr.Event(ev)
 				res.Hit("T:Pkt")
 				if pass {
 					res.Hit("T:pass")
@@ -834,6 +1042,7 @@ func ctTraces(t *testing.T, res *vResult, plan ctPlan, prop string) {
 					res.Hit("T:drop")
 				}
 			}
+			w.close()
 			res.Traces++
 			res.Case(fmt.Sprintf("trace/%s/%d/%d", prop, gi, n))
 			if n == 0 {
